@@ -1171,7 +1171,12 @@ func exExecWith(c *exCall, global bool) (o *exOutcome) {
 			fail(fmt.Errorf("decode root: %w", err))
 			return
 		}
-		err := spec.ExpandSpec(sw, opts)
+		var err error
+		if c.Entry == "nil_options" {
+			err = spec.ExpandSpec(sw, nil) // a caller without options: everything is local to the document
+		} else {
+			err = spec.ExpandSpec(sw, opts)
+		}
 		if err == nil && c.Twice {
 			err = spec.ExpandSpec(sw, opts)
 		}
@@ -1187,15 +1192,35 @@ func exExecWith(c *exCall, global bool) (o *exOutcome) {
 			v, err := spec.ResolveRefWithBase(root, &ref, opts)
 			result(v, err)
 		case "Parameter":
+			if c.Entry == "plain" {
+				v, err := spec.ResolveParameter(root, ref)
+				result(v, err)
+				break
+			}
 			v, err := spec.ResolveParameterWithBase(root, ref, opts)
 			result(v, err)
 		case "Response":
+			if c.Entry == "plain" {
+				v, err := spec.ResolveResponse(root, ref)
+				result(v, err)
+				break
+			}
 			v, err := spec.ResolveResponseWithBase(root, ref, opts)
 			result(v, err)
 		case "PathItem":
+			if c.Entry == "plain" {
+				v, err := spec.ResolvePathItem(root, ref, opts)
+				result(v, err)
+				break
+			}
 			v, err := spec.ResolvePathItemWithBase(root, ref, opts)
 			result(v, err)
 		case "Items":
+			if c.Entry == "plain" {
+				v, err := spec.ResolveItems(root, ref, opts)
+				result(v, err)
+				break
+			}
 			v, err := spec.ResolveItemsWithBase(root, ref, opts)
 			result(v, err)
 		default:
@@ -1752,6 +1777,15 @@ func genExpandCases(r *rng, n int, tier string, cw *caseWriter) {
 			m := orderedMap{{"op", "expand_spec"}, {"nt", len(g.Refs) > 0}, {"tags", g.Tags}, {"docs", g.Docs}, {"root", g.Root}, {"opts", o},
 				{"missing", append([]string{}, g.Missing...)}, {"acyclic", g.Acyclic}, {"unf_depth", depth}, {"go", view}}
 			emit(m)
+			if g.Acyclic && len(g.Docs) == 1 && len(g.Missing) == 0 && !o.Skip && !g.hasTag("id") {
+				// the same call by a caller who passes no options at all (the document is self-contained)
+				cn := g.call("expand_spec", o)
+				cn.Entry = "nil_options"
+				vn, dn := exGoView(g, cn, exRun(cn), true)
+				emit(orderedMap{{"op", "expand_spec"}, {"nt", len(g.Refs) > 0}, {"tags", g.Tags}, {"docs", g.Docs}, {"root", g.Root}, {"opts", exOpts{}},
+					{"missing", []string{}}, {"acyclic", true}, {"unf_depth", dn}, {"entry_point", "nil_options"}, {"go", vn}})
+				cw.count("nil-options")
+			}
 			if res.Timeout {
 				cw.count("timeout")
 			}
@@ -1770,6 +1804,15 @@ func genExpandCases(r *rng, n int, tier string, cw *caseWriter) {
 			view, _ := exGoView(g, c, res, false)
 			emit(orderedMap{{"op", "resolve"}, {"nt", true}, {"kind", rc.Kind}, {"docs", g.Docs}, {"root", g.Root}, {"ref", rc.Ref}, {"root_mode", mode}, {"opts", ro},
 				{"missing", append([]string{}, g.Missing...)}, {"expect", rc.Tag}, {"go", view}})
+			if rc.Kind != "Schema" && strings.HasPrefix(rc.Ref, "#") && mode != "none" {
+				// the resolvers without "WithBase" in their name (a root value, a reference into it): same answer
+				cp := g.call("resolve", ro)
+				cp.Kind, cp.Ref, cp.RootMode, cp.Entry = rc.Kind, rc.Ref, mode, "plain"
+				vp, _ := exGoView(g, cp, exRun(cp), false)
+				emit(orderedMap{{"op", "resolve"}, {"nt", true}, {"kind", rc.Kind}, {"docs", g.Docs}, {"root", g.Root}, {"ref", rc.Ref}, {"root_mode", mode}, {"opts", ro},
+					{"missing", append([]string{}, g.Missing...)}, {"expect", rc.Tag}, {"entry_point", "plain"}, {"go", vp}})
+				cw.count("resolve-plain")
+			}
 			if rc.Kind == "Schema" && strings.HasPrefix(rc.Ref, "#") && rf.chance(1, 2) {
 				c2 := g.call("resolve_ref", exOpts{})
 				c2.Ref, c2.RootMode = rc.Ref, rf.pick([]string{"typed", "generic"})
